@@ -101,6 +101,8 @@ type MySQLPreparedStatement struct {
 	sqlString    string
 	paramsNum    int
 	sqlStatement sqlparser.Statement
+	// parameter types (two bytes per parameter) sent with the last execution that carried them
+	paramTypes []byte
 }
 
 // NewPreparedStatement makes a new prepared statement.
@@ -130,6 +132,17 @@ func (s *MySQLPreparedStatement) Name() string {
 // ParamsNum return number of prepared statements params
 func (s *MySQLPreparedStatement) ParamsNum() int {
 	return s.paramsNum
+}
+
+// ParamTypes returns the parameter types bound by an earlier execution, if any.
+// Clients send the types with the first execution only; they stay in force for the later ones.
+func (s *MySQLPreparedStatement) ParamTypes() []byte {
+	return s.paramTypes
+}
+
+// SetParamTypes remembers the parameter types sent with an execution.
+func (s *MySQLPreparedStatement) SetParamTypes(types []byte) {
+	s.paramTypes = types
 }
 
 // Query returns the prepared query, in its parsed form.
